@@ -1024,4 +1024,314 @@ theorem forest_added (c : Nat) (hc : c < 2^63) :
   have e : nodesOf (c + 1) - nodesOf c = trailingOnes c + 1 := by omega
   rw [e]
 
+/-! ## `get_peak_heights_and_peak_node_indices` -/
+
+theorem nodesOf_le (m : Nat) : nodesOf m ≤ 2 * m := by unfold nodesOf; omega
+
+theorem nodesOf_mono {m m' : Nat} (h : m ≤ m') : nodesOf m ≤ nodesOf m' := by
+  induction h with
+  | refl => exact Nat.le_refl _
+  | step _ ih => rw [nodesOf_succ]; omega
+
+theorem nodesOf_two_pow (a : Nat) : nodesOf (2^a) = 2^(a+1) - 1 := by
+  have := nodesOf_two_pow_add a 0 (Nat.two_pow_pos a)
+  simpa [nodesOf, popCount_zero] using this
+
+theorem nodesOf_zero : nodesOf 0 = 0 := by simp [nodesOf, popCount_zero]
+
+/-- node indices of the peaks for the bits of `m` below `h`, highest first, placed after `o` nodes -/
+def peakIdxScan : (h : Nat) → (m o : Nat) → List Nat
+  | 0, _, _ => []
+  | h+1, m, o =>
+    if m / 2^h % 2 = 1 then (o + 2^(h+1) - 1) :: peakIdxScan h m (o + 2^(h+1) - 1) else peakIdxScan h m o
+
+theorem peaksLoop_succ (nc h cand : Nat) (hs is : List Nat) :
+    peaksLoop nc (h+1) cand hs is =
+      if cand > nc then
+        if left_child cand (h+1) ≤ nc then
+          peaksLoop nc h (right_sibling (left_child cand (h+1)) h) (hs ++ [h]) (is ++ [left_child cand (h+1)])
+        else peaksLoop nc h (left_child cand (h+1)) hs is
+      else none := rfl
+
+theorem mod_two_pow_succ (m h : Nat) : m % 2^(h+1) = 2^h * (m / 2^h % 2) + m % 2^h := by
+  rw [Nat.pow_succ, Nat.mod_mul]; omega
+
+/-- the two nested loops scan the bits of the remaining leaf count from the top -/
+theorem peaksLoop_scan : ∀ (h m o : Nat) (hs is : List Nat), o + 2^(h+1) ≤ 2^64 → h ≤ 63 →
+    peaksLoop (o + nodesOf (m % 2^h)) h (o + 2^(h+1) - 1) hs is
+      = some (hs ++ bitsBelow h m, is ++ peakIdxScan h m o) := by
+  intro h
+  induction h with
+  | zero => intro m o hs is _ _; simp [peaksLoop, bitsBelow, peakIdxScan]
+  | succ h ih =>
+    intro m o hs is ho hh
+    have hp := two_pow_succ' h
+    have hp2 : 2^(h+1+1) = 2 * 2^(h+1) := two_pow_succ' (h+1)
+    have hpos := Nat.two_pow_pos h
+    have h64 : (2:Nat)^64 = 18446744073709551616 := by decide
+    have hr := mod_two_pow_succ m h
+    have hrlt : m % 2^h < 2^h := Nat.mod_lt _ hpos
+    have hrlt' : m % 2^(h+1) < 2^(h+1) := Nat.mod_lt _ (Nat.two_pow_pos _)
+    have hnle := nodesOf_le (m % 2^(h+1))
+    have hlc := (left_child_spec (o + 2^(h+1+1) - 1) (h+1) (by omega) (by omega) (by omega)).1
+    have e : o + 2^(h+1+1) - 1 - 2^(h+1) = o + 2^(h+1) - 1 := by omega
+    rw [peaksLoop_succ, hlc, e, if_pos (by omega), bitsBelow_succ]
+    have hps : peakIdxScan (h+1) m o = if m / 2^h % 2 = 1 then (o + 2^(h+1) - 1) :: peakIdxScan h m (o + 2^(h+1) - 1)
+        else peakIdxScan h m o := rfl
+    rw [hps]
+    by_cases hb : m / 2^h % 2 = 1
+    · rw [hb, Nat.mul_one] at hr
+      have hno : nodesOf (m % 2^(h+1)) = 2^(h+1) - 1 + nodesOf (m % 2^h) := by
+        rw [hr]; exact nodesOf_two_pow_add h _ hrlt
+      have hrs := (right_sibling_spec (o + 2^(h+1) - 1) h (by omega) (by omega)).1
+      have enc : o + nodesOf (m % 2^(h+1)) = (o + 2^(h+1) - 1) + nodesOf (m % 2^h) := by omega
+      rw [if_pos (by omega), if_pos hb, if_pos hb, hrs, enc]
+      have := ih m (o + 2^(h+1) - 1) (hs ++ [h]) (is ++ [o + 2^(h+1) - 1]) (by omega) (by omega)
+      rw [this]
+      simp
+    · have hb0 : m / 2^h % 2 = 0 := by omega
+      rw [hb0, Nat.mul_zero, Nat.zero_add] at hr
+      have hnle' := nodesOf_le (m % 2^h)
+      rw [hr]
+      rw [if_neg (by omega), if_neg hb, if_neg hb]
+      exact ih m o hs is (by omega) (by omega)
+
+theorem popCount_two_pow_sub_one (a : Nat) : popCount (2^a - 1) = a := by
+  induction a with
+  | zero => simp [popCount_zero]
+  | succ a ih =>
+    have hp := two_pow_succ' a
+    have hpos := Nat.two_pow_pos a
+    have e : 2^(a+1) - 1 = 2 * (2^a - 1) + 1 := by omega
+    rw [e, popCount_two_mul_add_one, ih]
+
+/-- the topmost peak: root `2^(a+1) − 1`, height `a = log2 n` -/
+theorem top_peak (n : Nat) (hn1 : 1 ≤ n) (hn : n < 2^63) :
+    (if (leftmost_ancestor (leaf_index_to_node_index (n - 1))).1 > num_leafs_to_num_nodes n then
+        (left_child (leftmost_ancestor (leaf_index_to_node_index (n - 1))).1
+          (leftmost_ancestor (leaf_index_to_node_index (n - 1))).2,
+         dec32 (leftmost_ancestor (leaf_index_to_node_index (n - 1))).2)
+      else leftmost_ancestor (leaf_index_to_node_index (n - 1)))
+    = (2^(Nat.log2 n + 1) - 1, Nat.log2 n) := by
+  have h63 : (2:Nat)^63 = 9223372036854775808 := by decide
+  have h64 : (2:Nat)^64 = 18446744073709551616 := by decide
+  have hnn := (num_nodes_spec n hn).1
+  have hl2n := (l2n_spec (n-1) (by omega)).1
+  have hx : leaf_index_to_node_index (n - 1) = nodesOf (n - 1) + 1 := by rw [hl2n]; rfl
+  have hnc : num_leafs_to_num_nodes n = nodesOf n := by rw [hnn]; rfl
+  rw [hx, hnc]
+  have ha_lo := Nat.log2_self_le (n := n) (by omega)
+  have ha_hi : n < 2^(Nat.log2 n + 1) := (Nat.log2_lt (by omega)).mp (Nat.lt_succ_self _)
+  have ha : Nat.log2 n < 63 := by
+    apply pow_lt_pow_imp; omega
+  have h2a : 2^(Nat.log2 n) ≤ 4611686018427387904 := by
+    have : (4611686018427387904:Nat) = 2^62 := by decide
+    rw [this]; exact Nat.pow_le_pow_right (by decide) (by omega)
+  generalize Nat.log2 n = a at *
+  have hp := two_pow_succ' a
+  have hp2 : 2^(a+1+1) = 2 * 2^(a+1) := two_pow_succ' (a+1)
+  have hpos := Nat.two_pow_pos a
+  have hxle := nodesOf_le (n - 1)
+  have hx1 : 1 ≤ nodesOf (n - 1) + 1 := by omega
+  have hx2 : nodesOf (n - 1) + 1 < 2^64 := by omega
+  have hla := (leftmost_ancestor_spec (nodesOf (n-1) + 1) hx1 hx2).1
+  by_cases hpow : n = 2^a
+  · -- a power of two: the leftmost ancestor of the last leaf is the only peak
+    have hn1' : n - 1 = 2^a - 1 := by omega
+    have hnodes : nodesOf (n - 1) = 2 * (2^a - 1) - a := by
+      rw [hn1']; unfold nodesOf; rw [popCount_two_pow_sub_one]
+    have halt : a < 2^a := Nat.lt_two_pow_self
+    have hk : Nat.log2 (nodesOf (n-1) + 1) = a := log2_of_range _ a (by omega) (by omega)
+    rw [hk] at hla
+    have hnn2 : nodesOf n = 2^(a+1) - 1 := by rw [hpow]; exact nodesOf_two_pow a
+    rw [hla, hnn2, if_neg (by simp)]
+  · -- otherwise the last leaf already lies under the next power of two
+    have hge : 2^a ≤ n - 1 := by omega
+    have hlo := nodesOf_mono hge
+    rw [nodesOf_two_pow] at hlo
+    have hk : Nat.log2 (nodesOf (n-1) + 1) = a + 1 := log2_of_range _ (a+1) (by omega) (by omega)
+    rw [hk] at hla
+    have hnle := nodesOf_le n
+    rw [hla]
+    simp only
+    have hlc := (left_child_spec (2^(a+1+1) - 1) (a+1) (by omega) (by omega) (by omega)).1
+    rw [if_pos (by omega), hlc, dec32_succ a (by omega)]
+    have e : 2^(a+1+1) - 1 - 2^(a+1) = 2^(a+1) - 1 := by omega
+    rw [e]
+
+theorem peakIdxScan_of_lt (m : Nat) : ∀ K d o, m < 2^K → peakIdxScan (K + d) m o = peakIdxScan K m o := by
+  intro K d o hm
+  induction d with
+  | zero => rfl
+  | succ d ih =>
+    have : m / 2^(K+d) = 0 := Nat.div_eq_of_lt (Nat.lt_of_lt_of_le hm (Nat.pow_le_pow_right (by decide) (by omega)))
+    show peakIdxScan (K + d + 1) m o = _
+    have hps : peakIdxScan (K+d+1) m o = if m / 2^(K+d) % 2 = 1 then (o + 2^(K+d+1) - 1) :: peakIdxScan (K+d) m (o + 2^(K+d+1) - 1)
+        else peakIdxScan (K+d) m o := rfl
+    rw [hps, this]
+    simp only [Nat.zero_mod, Nat.zero_ne_one, if_false]
+    exact ih
+
+theorem get_peaks_unfold (n : Nat) (hn0 : n ≠ 0) (t : Nat × Nat)
+    (ht : (if (leftmost_ancestor (leaf_index_to_node_index (n - 1))).1 > num_leafs_to_num_nodes n then
+        (left_child (leftmost_ancestor (leaf_index_to_node_index (n - 1))).1
+          (leftmost_ancestor (leaf_index_to_node_index (n - 1))).2,
+         dec32 (leftmost_ancestor (leaf_index_to_node_index (n - 1))).2)
+      else leftmost_ancestor (leaf_index_to_node_index (n - 1))) = t) :
+    get_peak_heights_and_peak_node_indices n
+      = peaksLoop (num_leafs_to_num_nodes n) t.2 (right_sibling t.1 t.2) [t.2] [t.1] := by
+  unfold get_peak_heights_and_peak_node_indices
+  rewrite [if_neg hn0]
+  dsimp only
+  rewrite [ht]
+  rfl
+
+/-- **`get_peak_heights_and_peak_node_indices`** terminates for every leaf count below `2^63` and returns the heights
+    (set bits, highest first) and the node indices (running totals of the tree sizes) of the peaks -/
+theorem get_peaks_spec (n : Nat) (hn : n < 2^63) :
+    get_peak_heights_and_peak_node_indices n = some (bitsBelow 64 n, peakIdxScan 64 n 0) := by
+  by_cases hn0 : n = 0
+  · subst hn0
+    have e1 : bitsBelow 64 0 = [] := bitsBelow_zero_n 64
+    have e2 : peakIdxScan 64 0 0 = [] := by decide
+    rw [e1, e2]; rfl
+  · have h63 : (2:Nat)^63 = 9223372036854775808 := by decide
+    have h64 : (2:Nat)^64 = 18446744073709551616 := by decide
+    have htop := top_peak n (by omega) hn
+    rw [get_peaks_unfold n hn0 _ htop]
+    have ha_lo := Nat.log2_self_le (n := n) (by omega)
+    have ha_hi : n < 2^(Nat.log2 n + 1) := (Nat.log2_lt (by omega)).mp (Nat.lt_succ_self _)
+    have ha : Nat.log2 n < 63 := by
+      apply pow_lt_pow_imp; omega
+    have hnc : num_leafs_to_num_nodes n = nodesOf n := by rw [(num_nodes_spec n hn).1]; rfl
+    rw [hnc]
+    have h2a : 2^(Nat.log2 n) ≤ 4611686018427387904 := by
+      have : (4611686018427387904:Nat) = 2^62 := by decide
+      rw [this]; exact Nat.pow_le_pow_right (by decide) (by omega)
+    generalize Nat.log2 n = a at *
+    have hp := two_pow_succ' a
+    have hpos := Nat.two_pow_pos a
+    have hrs := (right_sibling_spec (2^(a+1) - 1) a ha (by omega)).1
+    show peaksLoop (nodesOf n) a (right_sibling (2^(a+1) - 1) a) [a] [2^(a+1) - 1] = _
+    rw [hrs]
+    have hmod : n % 2^a = n - 2^a := by
+      have : n = 2^a + (n - 2^a) := by omega
+      conv => lhs; rw [this]
+      rw [Nat.add_mod_left, Nat.mod_eq_of_lt (by omega)]
+    have hno : nodesOf n = (2^(a+1) - 1) + nodesOf (n % 2^a) := by
+      rw [hmod]
+      have := nodesOf_two_pow_add a (n - 2^a) (by omega)
+      have e : 2^a + (n - 2^a) = n := by omega
+      rw [e] at this; exact this
+    have hscan := peaksLoop_scan a n (2^(a+1) - 1) [a] [2^(a+1) - 1] (by omega) (by omega)
+    rw [← hno] at hscan
+    rw [hscan]
+    -- the top bit of `n` is bit `a`
+    have hbit : n / 2^a % 2 = 1 := by
+      have : n / 2^a = 1 := Nat.div_eq_of_lt_le (by omega) (by omega)
+      rw [this]
+    have hb1 : bitsBelow (a+1) n = a :: bitsBelow a n := by rw [bitsBelow_succ, if_pos hbit]
+    have hp1 : peakIdxScan (a+1) n 0 = (2^(a+1) - 1) :: peakIdxScan a n (2^(a+1) - 1) := by
+      have hps : peakIdxScan (a+1) n 0 = if n / 2^a % 2 = 1 then (0 + 2^(a+1) - 1) :: peakIdxScan a n (0 + 2^(a+1) - 1)
+          else peakIdxScan a n 0 := rfl
+      rw [hps, if_pos hbit, Nat.zero_add]
+    have hb2 := bitsBelow_of_lt n (a+1) (64 - (a+1)) ha_hi
+    have hp2 := peakIdxScan_of_lt n (a+1) (64 - (a+1)) 0 ha_hi
+    have e : a + 1 + (64 - (a+1)) = 64 := by omega
+    rw [e] at hb2 hp2
+    rw [hb2, hp2, hb1, hp1]
+    rfl
+
+/-! ### … against the explicit forest -/
+
+theorem peakIdxScan_closed (n : Nat) : ∀ h,
+    peakIdxScan h n (nodesOf ((n / 2^h) * 2^h)) = (bitsBelow h n).map fun j => nodesOf ((n / 2^j) * 2^j) := by
+  intro h
+  induction h with
+  | zero => rfl
+  | succ h ih =>
+    have hps : ∀ o, peakIdxScan (h+1) n o = if n / 2^h % 2 = 1 then (o + 2^(h+1) - 1) :: peakIdxScan h n (o + 2^(h+1) - 1)
+        else peakIdxScan h n o := fun _ => rfl
+    have hdiv : n / 2^(h+1) = n / 2^h / 2 := by rw [Nat.pow_succ, Nat.div_div_eq_div_mul]
+    have hm := Nat.div_add_mod (n / 2^h) 2
+    rw [hps, bitsBelow_succ]
+    by_cases hb : n / 2^h % 2 = 1
+    · have e : n / 2^h = 2 * (n / 2^(h+1)) + 1 := by omega
+      have hodd := nodesOf_odd (n / 2^(h+1)) h
+      rw [← e] at hodd
+      have e2 : 2 * (n / 2^(h+1)) * 2^h = n / 2^(h+1) * 2^(h+1) := by rw [Nat.pow_succ]; ring
+      rw [e2] at hodd
+      rw [if_pos hb, if_pos hb, ← hodd, ih]
+      rfl
+    · have e : n / 2^h = 2 * (n / 2^(h+1)) := by omega
+      have e2 : n / 2^(h+1) * 2^(h+1) = n / 2^h * 2^h := by
+        generalize n / 2^(h+1) = b at *
+        rw [e, Nat.pow_succ]; ring
+      rw [if_neg hb, if_neg hb, e2, ih]
+
+/-- node indices of the peaks of the forest, by low-bit recursion -/
+theorem highTrees_idxs (q : Nat) : ∀ h K, q < 2^K →
+    ((highTrees h q).map TF.Spec.Mmr.Tree.idx).reverse
+      = (bitsBelow K q).map fun j => nodesOf ((q / 2^j) * 2^j * 2^h) := by
+  induction q using Nat.strongRecOn with
+  | _ q ih =>
+    intro h K hq
+    cases K with
+    | zero =>
+      have : q = 0 := by simpa using hq
+      subst this; simp [highTrees_zero, bitsBelow]
+    | succ K =>
+      have hq2 : q / 2 < 2^K := by rw [Nat.pow_succ] at hq; omega
+      rw [bitsBelow_low]
+      have hshift : ∀ j, nodesOf ((q / 2^(j+1)) * 2^(j+1) * 2^h) = nodesOf ((q / 2 / 2^j) * 2^j * 2^(h+1)) := by
+        intro j
+        have e1 : q / 2^(j+1) = q / 2 / 2^j := by rw [Nat.div_div_eq_div_mul, Nat.pow_succ, Nat.mul_comm]
+        rw [e1, Nat.pow_succ, Nat.pow_succ]
+        congr 1; ring
+      rcases Nat.even_or_odd' q with ⟨a, rfl | rfl⟩
+      · by_cases ha : a = 0
+        · subst ha; simp [highTrees_zero, bitsBelow_zero_n]
+        · have e1 : 2 * a / 2 = a := by omega
+          have e2 : ¬ (2 * a % 2 = 1) := by omega
+          rw [highTrees_even h a (by omega), if_neg e2, ih a (by omega) (h+1) K (by omega)]
+          simp only [List.append_nil, List.map_map, e1]
+          apply List.map_congr_left
+          intro j _
+          simp only [Function.comp]
+          rw [hshift j, e1]
+      · have e1 : (2 * a + 1) / 2 = a := by omega
+        have e2 : (2 * a + 1) % 2 = 1 := by omega
+        rw [highTrees_odd, if_pos e2]
+        simp only [List.map_cons, List.reverse_cons, tree_idx, List.map_append, List.map_map, e1]
+        rw [ih a (by omega) (h+1) K (by omega)]
+        congr 1
+        · apply List.map_congr_left
+          intro j _
+          simp only [Function.comp]
+          rw [hshift j, e1]
+        · have hodd := nodesOf_odd a h
+          simp only [List.map_cons, List.map_nil, Nat.pow_zero, Nat.div_one, Nat.mul_one]
+          rw [hodd]
+
+/-- **`get_peak_heights_and_peak_node_indices` against the explicit forest**: heights and node indices of its trees,
+    oldest (highest) first -/
+theorem forest_peaks (n : Nat) (hn : n < 2^63) :
+    get_peak_heights_and_peak_node_indices n
+      = some ((forest n).peaks.map TF.Spec.Mmr.Tree.height, (forest n).peaks.map TF.Spec.Mmr.Tree.idx) := by
+  have h64 : n < 2^64 := by
+    have : (2:Nat)^63 < 2^64 := by decide
+    omega
+  rw [get_peaks_spec n hn, (forest_shape n h64).2.2]
+  have hidx : (forest n).peaks.map TF.Spec.Mmr.Tree.idx = peakIdxScan 64 n 0 := by
+    rw [forest_eq]
+    unfold Forest.peaks
+    simp only
+    rw [List.map_reverse, highTrees_idxs n 0 64 h64]
+    have := peakIdxScan_closed n 64
+    rw [Nat.div_eq_of_lt h64, Nat.zero_mul, nodesOf_zero] at this
+    rw [this]
+    simp
+  rw [hidx]
+
+
 end TF.Mmr
